@@ -209,7 +209,7 @@ def st_long(draw):
 
 class LongRuns(Sub):
     name = "long-runs"
-    examples = {"quick": 1600, "thorough": 60000}
+    examples = {"quick": 1600, "thorough": 12800}
     shards = {"quick": 8, "thorough": 16}
     rule = RULE + "; 20-400 arrivals incl. sustained traffic, IPv4 and IPv6, 1-3 rules per command"
 
@@ -236,7 +236,7 @@ class LongRuns(Sub):
 
 class Parser(Sub):
     name = "parser"
-    examples = {"quick": 1500, "thorough": 20000}
+    examples = {"quick": 1500, "thorough": 12000}
     shards = {"quick": 2, "thorough": 4}
     rule = "rule strings from a grammar (all interval spellings, case, empty items) vs a reference parse; non-trivial = >=2 rules"
 
